@@ -2,7 +2,7 @@
 COMMON_ASSUMPTIONS = [
     "executions are sequentially consistent at hook/lock granularity: compiler/CPU reorderings and preemption between two statements with no hook between them are not explored",
     "only the PTHREAD build is simulated; the OpenMP variant shares all code except the pragmas in p?gstrf.c, pxgstrf_scheduler.c, pmemory.c, pxgstrf_synch.c",
-    "built-in BLAS kernels (CBLAS/ and ?myblas2.c from the repository); the vendor-BLAS configuration is not part of this run",
+    "built-in BLAS kernels (CBLAS/ and ?myblas2.c from the repository) except in the batches of flavour 'vblas' (-DUSE_VENDOR_BLAS, system OpenBLAS forced to one thread; OpenBLAS itself is trusted)",
     "32-bit indices except in the batches of flavour 'long' (-D_LONGINT) listed under coverage.seeds",
     "seeded sampling, not enumeration: a clean batch is evidence, not proof",
     "libc, the allocator and the long-double reference oracles are trusted",
@@ -20,10 +20,10 @@ RULE_A = ("cases are generated from the seed: configuration (pattern family, val
 
 CHECKS = {
  'C01': dict(seed_offset=1, level='exploration', rule=RULE_A, props=['C01'],
-             batches=[dict(profile='ssv', flavour='plain', quick=60000, thorough=3000000), dict(profile='ssv', flavour='asan', quick=4000, thorough=150000), dict(profile='ssv', flavour='long', quick=8000, thorough=400000)],
+             batches=[dict(profile='ssv', flavour='plain', quick=60000, thorough=3000000), dict(profile='ssv', flavour='asan', quick=4000, thorough=150000), dict(profile='ssv', flavour='long', quick=8000, thorough=400000), dict(profile='ssv', flavour='vblas', quick=8000, thorough=400000)],
              must_probe=['solves_checked', 'spin_blocks', 'numbering_ne_storage_order', 'nprocs_gt_n']),
  'C02': dict(seed_offset=2, level='exploration', rule=RULE_A, props=['C02'],
-             batches=[dict(profile='strf', flavour='plain', quick=60000, thorough=3000000), dict(profile='strf', flavour='asan', quick=4000, thorough=150000), dict(profile='strf', flavour='long', quick=8000, thorough=400000)],
+             batches=[dict(profile='strf', flavour='plain', quick=60000, thorough=3000000), dict(profile='strf', flavour='asan', quick=4000, thorough=150000), dict(profile='strf', flavour='long', quick=8000, thorough=400000), dict(profile='strf', flavour='vblas', quick=8000, thorough=400000)],
              must_probe=['factorizations_checked', 'update_2d', 'supernode_spans_two_panels', 'panel_split_at_top', 'offdiag_pivots']),
  'C03': dict(seed_offset=3, level='exploration', rule=RULE_A, props=['C03'],
              batches=[dict(profile='pipe', flavour='plain', quick=60000, thorough=3000000), dict(profile='strf', flavour='plain', quick=20000, thorough=1000000)],
